@@ -657,8 +657,9 @@ class Parser:
                 flags |= self.RE_FLAG_MAP[flag]
         try:
             return RegexLiteral(value=re.compile(pattern, flags))
-        except (re.error, OverflowError) as err:
+        except (re.error, OverflowError, ValueError) as err:
             # OverflowError: a repetition count beyond what `re` accepts.
+            # ValueError: incompatible flags, like `/(?u)x/a`.
             raise JSONPathSyntaxError(
                 f"invalid regular expression: {err}", token=stream.current
             ) from err
